@@ -36,6 +36,7 @@ CONSTANTS Scripts,          \* relay scripts to enumerate (first duty)
           Drops,            \* TRUE: a prepared duty may be dropped instead of proposed (where duty objects live side by side)
           CfgFilter,        \* "nonodeclient": proposal providers without NodeClient (no template graffiti in the run);
                             \* "graffiti": only services with a graffiti provider and without unblind-from-all
+                            \* "wired": (with InitCfgs <- WiredCfgs) at least one relay configured
           LaterScripts, LaterGraffitiOuts, LaterPrepOuts, LaterNodeClientOuts, LaterStepOuts
 
 VARIABLE sc
@@ -46,6 +47,9 @@ Flags(S) == [r \in 1..NRelays |-> r \in S]
 Base(d) == [slot |-> d.slot, v |-> d.v,
             accounts |-> "na", randao |-> "na", graffiti |-> "na", nodeclient |-> "na",
             auction |-> [kind |-> "none", all |-> Flags({}), providers |-> Flags({})],
+            \* the auction as a component (cfg.strategy # "opaque"): what the block relay's account lookup
+            \* answers and what each configured relay does with a request for a bid
+            aacct |-> "na", bids |-> [r \in 1..NRelays |-> "none"],
             proposal |-> [out |-> "na", version |-> "none", blinded |-> FALSE, dslot |-> 0],
             sign |-> "na",
             relays |-> [r \in 1..NRelays |-> "none"],
@@ -55,6 +59,7 @@ SInit ==
     /\ Init
     /\ CfgFilter = "graffiti" => (cfg.graffiti /\ ~cfg.unblindAll)
     /\ CfgFilter = "nonodeclient" => ~cfg.nodeclient
+    /\ CfgFilter = "wired" => cfg.conf # {}
     /\ sc = [cfg |-> cfg, duties |-> <<Base(duty)>>, sched |-> <<[op |-> "prepare", h |-> 1]>>]
 
 Sched(op) == [op |-> op, h |-> cur]
@@ -89,6 +94,23 @@ SNext ==
        /\ \E all \in Bound(AllChoices, LaterAllChoices) : \E providers \in SUBSET all :
             /\ AuctionCall("results", all, providers)
             /\ Put("auction", [kind |-> "results", all |-> Flags(all), providers |-> Flags(providers)])
+    \* the auction as a component: the relays are asked in the order of their numbers (the order in which the
+    \* goroutines of the strategy run is not the driver's to choose), each once (a relay gives the same answer to
+    \* every request of one auction); the relays TLC names as Providers bid the highest value, with one header
+    \/ /\ pc = "auction" /\ cfg.strategy # "opaque"
+       /\ \E out \in StepOuts : AuctionStart(out) /\ Put("aacct", out)
+    \/ /\ pc = "bidding" /\ auction.acct = "ok"
+       /\ \E r \in cfg.conf : \E out \in Bound(BidOuts, LaterBidOuts) :
+            /\ auction.asked[r] = 0 /\ \A x \in cfg.conf : x < r => auction.asked[x] > 0
+            /\ BidCall(r, out)
+            /\ sc' = [sc EXCEPT !.duties[cur].bids[r] = out]
+    \/ /\ pc = "bidding" /\ auction.acct = "err"
+       /\ AuctionCall("err", {}, {}) /\ Put("auction", [kind |-> "err", all |-> Flags({}), providers |-> Flags({})])
+    \/ /\ pc = "bidding" /\ auction.acct = "ok" /\ \A r \in cfg.conf : auction.asked[r] > 0
+       /\ \E providers \in SUBSET Bidders :
+            /\ Bidders # {} => providers # {}
+            /\ AuctionCall("results", cfg.conf, providers)
+            /\ Put("auction", [kind |-> "results", all |-> Flags(cfg.conf), providers |-> Flags(providers)])
     \/ /\ pc = "proposal" /\ "err" \in StepOuts
        /\ ProposalCall(duty.slot, graffiti \notin {"static", "template"}, randao.token, "err", NoProp)
        /\ Put("proposal", [out |-> "err", version |-> "none", blinded |-> FALSE, dslot |-> 0])
